@@ -7,9 +7,9 @@ set -e
 cd "$(dirname "$0")/.."
 N=${1:-25}; S=${2:-7}
 mkdir -p build/tmp
-make -j16 FLAVOR=plain >/dev/null && make -j16 FLAVOR=san >/dev/null || exit 2
+make -j16 FLAVOR=plain >/dev/null && make -j16 FLAVOR=san >/dev/null && make -j16 FLAVOR=dbg >/dev/null || exit 2
 rc=0
-for fl in plain san; do
+for fl in plain san dbg; do
   [ -x build/$fl/vsim ] || continue
   build/$fl/vsim selftest fingerprints --workers $N --seed $S > build/tmp/fp-$fl-1.txt
   PADDING=$(head -c 3000 /dev/zero | tr '\0' x) OTHER=1 build/$fl/vsim selftest fingerprints --workers $N --seed $S > build/tmp/fp-$fl-2.txt
